@@ -64,8 +64,10 @@ PROPS = {
     },
     "C10": {
         "level": "exploration",
-        "stages": [hist("hist", "hist::hist_c10", 600, 12000)],
-        "rule": "case = one clean followed by a build of the same scope after the scope had just been verified up to date by a successful build; distinct by (graph shape, history prefix); non-trivial when at least two targets were cleaned",
+        "needs_plain_binary": True,
+        "stages": [hist("hist", "hist::hist_c10", 600, 12000),
+                   {"name": "realfs", "kind": "python", "module": "clean_real", "cases": {"quick": 48, "thorough": 500}}],
+        "rule": "case = one clean followed by a build of the same scope after the scope had just been verified up to date by a successful build, on the in-memory System inside random histories and (stage realfs) with the built ruler binary, shell commands and the real file system (listing, bytes, permission bits, status lines); distinct by (graph shape, history prefix) resp. (seed, case, round); non-trivial when at least two targets were cleaned",
         "floor": {"quick": 100, "thorough": 1000},
         "assumptions": COMMON_ASSUME,
     },
@@ -111,7 +113,9 @@ PROPS = {
     },
     "C06": {
         "level": "exploration",
-        "stages": [sched("sched", "sched::sched_c06", 150, 1500, schedules_quick=30, schedules_thorough=300), sched("free", "sched::sched_c06", 40, 600, schedules_quick=15, schedules_thorough=40, free=True)],
+        "needs_plain_binary": True,
+        "stages": [sched("sched", "sched::sched_c06", 150, 1500, schedules_quick=30, schedules_thorough=300), sched("free", "sched::sched_c06", 40, 600, schedules_quick=15, schedules_thorough=40, free=True),
+                   {"name": "strace", "kind": "python", "module": "strace_twins", "cases": {"quick": 12, "thorough": 60}, "reps": {"quick": 5, "thorough": 20}}],
         "rule": "case = one scenario (graph + prepared state, biased to cleaned byte-identical twins) whose final build is executed under many schedules from the same snapshot; verdict and all workspace bytes must agree across schedules; distinct by scenario; non-trivial when >= 2 distinct interleavings were compared and >= 2 threads performed cache operations",
         "floor": {"quick": 50, "thorough": 1000},
         "assumptions": COMMON_ASSUME + SCHED_ASSUME,
@@ -166,5 +170,13 @@ PROPS = {
         "rule": "case = one (state-file instance, damage) pair: write/read round trip through ruler's own writer and reader on a fresh handle, every strict prefix, single bit flips (every position of small images), random byte strings; a panic or a process abort is a violation, an accepted prefix is a violation; exported images are decoded by an independent bincode reader; distinct by (image, damage)",
         "floor": {"quick": 10000, "thorough": 200000},
         "assumptions": ["instances: 0..50 entries, 1..8 targets; hashes are arbitrary 256-bit values made through the text form"],
+    },
+    "C19": {
+        "level": "exploration",
+        "needs_plain_binary": True,
+        "stages": [{"name": "server", "kind": "python", "module": "server_check", "cases": {"quick": 32, "thorough": 300}}],
+        "rule": "case = one HTTP request sent over a raw socket to `ruler serve` running on a ruler directory produced by a random real-file-system history; classes: every cached hash (200 + exact bytes + SHA-256 of the body re-encodes to the name), absent valid hashes (404), every recorded (rule, sources) pair decoded from the history files by the independent bincode reader (200 + hashes in target order, each the hash of a content seen at that target), unknown pairs (404), ~70 malformed/hostile request targets per directory (404, or 400 for byte strings that are not a valid request target; never a body equal to a file outside cache/history; a 200 only when the target names a cached hash), liveness probe; distinct by (directory, class, index); non-trivial when the directory has at least one cache entry and one history entry",
+        "floor": {"quick": 200, "thorough": 2000},
+        "assumptions": ["only GET is judged", "the HTTP layer may answer 400 to byte strings that are not a valid request target (raw NUL, space, non-ASCII)", "a trailing '/' or a query after a cached hash addresses the same resource"],
     },
 }
